@@ -331,7 +331,10 @@ def r5_interval_merge(ctx):
     own_sets = [{"note": ["child"], "only_child": ["c1", "c2"]}, {"note": ["same"], "k": ["v"]}, {}, {"note": []}]
     parent_sets = [{"note": ["parent", "child"], "only_parent": ["p"]}, {"note": ["same"]}, {}, None, {"only_parent": []}]
     n = 0
-    mergef = repo.fn("gene.interval:AbstractFeatureInterval._merge_qualifiers")
+    mergef = repo.fn_opt("gene.interval:AbstractFeatureInterval._merge_qualifiers")
+    mq = "gene.interval:AbstractFeatureInterval._merge_qualifiers"
+    if mergef is None:
+        r.note("C18.R5: private helper _merge_qualifiers not found under that name; the merge is asked through export_qualifiers only")
 
     def as_map(q):
         return {str(k): sorted(str(x) for x in v) for k, v in (q or {}).items()}
@@ -349,22 +352,23 @@ def r5_interval_merge(ctx):
                     q = "gene.transcript:TranscriptInterval.export_qualifiers" if kind == "transcript" else "gene.cds:CDSInterval.export_qualifiers"
                 pq = None if par is None else {k: it._dedupe(list(v), 0) for k, v in par.items()}
                 before_own, before_par = as_map(o.fields.get("qualifiers")), as_map(pq)
-                k, v = run(it, mergef, [pq], {}, o)
+                k, v = run(it, mergef, [pq], {}, o) if mergef is not None else ("skipped", None)
                 want = {}
                 for src_ in (before_own, before_par):
                     for key, vals in src_.items():
                         want[key] = sorted(set(want.get(key, [])) | set(vals))
                 desc = f"{kind} with qualifiers {own}, parent qualifiers {par}"
-                r.check(k == "ok" and as_map(v) == want, "C18.R5", mergef.qual, f"{kind}: own {sorted(own)} + parent {sorted(par) if par else par}",
-                        f"{desc}: _merge_qualifiers -> {k}:{as_map(v) if k == 'ok' else v}; the key-wise union is {want}", mergef)
+                if mergef is not None:
+                    r.check(k == "ok" and as_map(v) == want, "C18.R5", mq, f"{kind}: own {sorted(own)} + parent {sorted(par) if par else par}",
+                            f"{desc}: _merge_qualifiers -> {k}:{as_map(v) if k == 'ok' else v}; the key-wise union is {want}", mergef)
                 k2, v2 = run(it, repo.fn(q), [pq], {}, o)
                 exported = as_map(v2) if k2 == "ok" else None
                 r.check(k2 == "ok" and all(set(vals) <= set(exported.get(key, [])) for key, vals in want.items()), "C18.R5", q,
                         f"{kind}: own {sorted(own)} + parent {sorted(par) if par else par}",
                         f"{desc}: export_qualifiers -> {k2}:{exported}; it must contain the key-wise union {want}", repo.fn(q))
-                r.check(as_map(o.fields.get("qualifiers")) == before_own and as_map(pq) == before_par, "C18.R5", mergef.qual,
+                r.check(as_map(o.fields.get("qualifiers")) == before_own and as_map(pq) == before_par, "C18.R5", mq,
                         f"{kind}: inputs unchanged ({sorted(own)} / {sorted(par) if par else par})",
-                        f"{desc}: merging changed an input: own {as_map(o.fields.get('qualifiers'))}, parent {as_map(pq)}", mergef)
+                        f"{desc}: merging changed an input: own {as_map(o.fields.get('qualifiers'))}, parent {as_map(pq)}", repo.where(mq))
     r.floor("C18.R5", "interval-level merges", n, 40)
 
 
